@@ -637,7 +637,8 @@ def run(ctx):
             ("sid", "slen", "xx"), ("new", "taken", None), (0, 3)):
         def run_once(script, field=field, value=value, vl=vl):
             g = Abs(gfacls, label="gfa", registry=["line", "other"])
-            other = Abs(SEG, label="other", _gfa=g)
+            other = Abs(SEG, label="other", _gfa=g, _virtual=False,
+                        virtual=False)
             ln = Abs(SEG, label="line", _gfa=g, vlevel=vl,
                      _data={"sid": "old", "slen": 1, "xx": "v"},
                      _datatype={})
